@@ -99,8 +99,10 @@ pub fn c16(cx: &Cx) -> i32 {
                 by_class.entry(cl).or_default().push(format!("{} -> {} at {}", c.caller, c.generic, c.loc));
             }
         }
+        let proved_bounds = f.asserts.iter().filter(|(c, k, _)| k == "bounds-proved" && reach.contains(c)).count();
+        rep.analysed.insert("index sites proven in range on MIR (fixed-size table indexed by `enum as usize`)".into(), json!(proved_bounds));
         for (caller, kind, loc) in &f.asserts {
-            if kind == "other" || !reach.contains(caller) || expn_fns.contains(caller) { continue; }
+            if kind == "other" || kind == "bounds-proved" || !reach.contains(caller) || expn_fns.contains(caller) { continue; }
             by_class.entry(if kind == "bounds" { "index" } else { "arith" }).or_default().push(format!("{caller} assert {kind} at {loc}"));
         }
         for (cl, max, why) in PANIC_CEILINGS {
